@@ -400,14 +400,14 @@ func (e *c19Exp) id() string {
 }
 
 type c19Outcome struct {
-	Key      string
-	What     string
-	Trace    []string
-	Snaps    []dbSnap
-	Steps    int
-	KillFn   string
-	KillCmd  string
-	Events   string
+	Key     string
+	What    string
+	Trace   []string
+	Snaps   []dbSnap
+	Steps   int
+	KillFn  string
+	KillCmd string
+	Events  string
 }
 
 func cmdHead(c string) string {
